@@ -11,6 +11,7 @@ Units
   dict    per-subregion dictionaries over all subregion layouts (precedence, default)
   nan     NaN as a *value* of a specification (constant, array, function, dict)
   source  another field as specification (same / finer / coarser / larger / shifted / not covering)
+  reuse   values from a source field / a function after the mesh object was used and then transformed in place
   sample  field(p) for every cell x {centre, 4 off-centre, faces, corners}
   access  component access for every label, iteration order
   line    line(p1, p2, n) for all ordered pairs of a 9-point set x n
@@ -733,6 +734,95 @@ def unit_source(ctx):
 
 
 # ==========================================================================
+# unit reuse - values assigned after the mesh object has been used and then transformed in place
+
+
+def unit_reuse(ctx):
+    """Non-initial states: a mesh that has already been described / used for a first field is translated, scaled or
+    turned IN PLACE, then a field is filled (constructor or update_field_values on the field that already lives on that
+    mesh object) from a source field on a larger, finer mesh and from a function of position.  The stored values must be
+    the specification at the cell centres the mesh has NOW."""
+    n = ctx.choose("n", [(4,), (3, 2), (2, 3, 2)])
+    nd = len(n)
+    spec = ctx.choose("specification", ["source-field", "function"])
+    first = ctx.choose("first-use", ["field-from-same-specification", "cells+coordinate_field", "nothing"])
+    steps = [("translate", 1.0), ("translate", -2.5), ("scale", 0.5), ("scale", 2.0)]
+    if nd >= 2:
+        steps += [("rotate90", 1), ("rotate90", 2)]
+    step = ctx.choose("then-in-place", steps)
+    route = ctx.choose("route", ["ctor", "update"])
+    cell = [1.0, 0.5, 0.25][:nd]
+    pmin = [0.25, -1.0, 2.0][:nd]
+    pmax = [a + c * k for a, c, k in zip(pmin, cell, n)]
+    mesh = df.Mesh(region=df.Region(p1=pmin, p2=pmax), n=n)
+    # source: covers [-16, 16]^nd with cells of 1/8: every target centre of every step lies strictly inside one source cell
+    sn = tuple([256] * nd) if nd == 1 else tuple([64] * nd) if nd == 2 else tuple([32] * nd)
+    h = 32.0 / sn[0]
+    smesh = df.Mesh(region=df.Region(p1=[-16.0] * nd, p2=[16.0] * nd), n=sn)
+    w = np.array([3.0, -5.0, 7.0][:nd])
+
+    def fn(p):  # affine in the position: exact at dyadic points, sensitive to any shift of the evaluation point
+        p = np.atleast_1d(np.asarray(p, dtype=float))
+        v = float(np.dot(w, p))
+        return v
+
+    if spec == "source-field":
+        sidx = np.stack(np.meshgrid(*[np.arange(k) for k in sn], indexing="ij"), axis=-1)
+        code = np.zeros(sn)
+        for a in range(nd):
+            code = code * sn[a] + sidx[..., a]
+        sdata = code[..., None]      # the flat index of the source cell: decodable
+        value = df.Field(smesh, nvdim=1, value=sdata)
+    else:
+        value = fn
+    inst = ctx.key()
+    f0 = None
+    if first == "field-from-same-specification" or route == "update":
+        ctx.step(1, "first field on the mesh")
+        f0 = df.Field(mesh, nvdim=1, value=value if first == "field-from-same-specification" else 0.0)
+    if first == "cells+coordinate_field":
+        mesh.cells, mesh.vertices, mesh.coordinate_field()
+    ctx.step(1, f"in place: {step}")
+    dims = mesh.region.dims
+    if step[0] == "translate":
+        mesh.translate([step[1] * c for c in [1.0, -0.5, 0.75][:nd]], inplace=True)
+    elif step[0] == "scale":
+        mesh.scale(step[1], reference_point=[0.0] * nd, inplace=True)
+    else:
+        if f0 is not None:
+            f0.rotate90(dims[0], dims[1], k=step[1], reference_point=[0.0] * nd, inplace=True)
+            mesh = f0.mesh
+        else:
+            mesh.rotate90(dims[0], dims[1], k=step[1], reference_point=[0.0] * nd, inplace=True)
+    ctx.step(1, f"{route}: values from {spec}")
+    if route == "ctor":
+        f = df.Field(mesh, nvdim=1, value=value)
+    else:
+        f0.update_field_values(value)
+        f = f0
+    geo = Geo(f.mesh)
+    ctx.observe(np.round(f.array, 9))
+    for idx in geo.cells():
+        c = np.array([float(x) for x in geo.centre_exact(idx)])
+        ctx.check()
+        if spec == "function":
+            exp = np.array([fn(c)])
+            ok = bool(np.all(np.abs(f.array[idx] - exp) <= 1e-9 * (1.0 + np.abs(exp))))
+        else:
+            j = np.floor((c + 16.0) / h).astype(int)
+            flat = 0
+            for a in range(nd):
+                flat = flat * sn[a] + int(j[a])
+            exp = np.array([float(flat)])
+            ok = bool(np.array_equal(f.array[idx], exp))
+        if not ok:
+            ctx.fail(f"Field.reuse/{spec}/value-not-at-the-current-cell-centre",
+                     f"after {first} and in-place {step}: cell {idx} (centre {c.tolist()}) stores {f.array[idx].tolist()}, "
+                     f"the specification there is {exp.tolist()}", instance=inst)
+            return
+
+
+# ==========================================================================
 # unit sample
 
 OFFSETS = {
@@ -1124,6 +1214,7 @@ def units(tier):
         {"name": "dict", "fn": unit_dict, "bound": None},
         {"name": "nan", "fn": unit_nan, "bound": None},
         {"name": "source", "fn": unit_source, "bound": None},
+        {"name": "reuse", "fn": unit_reuse, "bound": None},
         {"name": "sample", "fn": unit_sample, "bound": None},
         {"name": "access", "fn": unit_access, "bound": None},
         {"name": "line", "fn": unit_line, "bound": None},
